@@ -238,7 +238,12 @@ func c01(c *core.Ctx, r *core.Report) {
 		r.Undecided("C01.R7", "exposer-table", c.FnPos(l.exposer), "abstract interpretation left the model: "+eund)
 	} else {
 		ers.report(c, r, l.exposer, func(row string) string {
-			if row == "early-reuse" || row == "plain" {
+			switch row {
+			case "early-reuse", "plain":
+				return "C01.R7"
+			case "stale-detected", "in-creation-holders-ok", "wrapped-never-raw":
+				// a holder that already received the early version while the registry publishes another one would
+				// hold a different version of the singleton: the start must fail instead
 				return "C01.R7"
 			}
 			return ""
@@ -324,10 +329,14 @@ func c01Lookup(c *core.Ctx, r *core.Report, l *lifecycleRoles) {
 	}
 }
 
-func c01NewMeta(c *core.Ctx, r *core.Report) {
+func c01NewMeta(c *core.Ctx, r *core.Report) { newMetaRules(c, r, "C01.R9") }
+
+// newMetaRules: a definition is built only inside the store-if-absent callback of the definition registry (two
+// concurrent scanners asking for one name get the same definition), reported under rule.
+func newMetaRules(c *core.Ctx, r *core.Report, rule string) {
 	ro := c.Roles()
 	if ro.NewMeta == nil {
-		r.Undecided("C01.R9", "role:NewMeta", "", "component_definition.NewMeta not found")
+		r.Undecided(rule, "role:NewMeta", "", "component_definition.NewMeta not found")
 		return
 	}
 	sync2Map := c.Named("util/sync2", "Map")
@@ -344,7 +353,7 @@ func c01NewMeta(c *core.Ctx, r *core.Report) {
 			n++
 			cons := "NewMeta@" + core.FnName(fn)
 			if fn == ro.CreateProxy {
-				r.Hold("C01.R9", cons, c.Pos(ci.Pos()), "CreateProxy builds the definition of a substituted version")
+				r.Hold(rule, cons, c.Pos(ci.Pos()), "CreateProxy builds the definition of a substituted version")
 				continue
 			}
 			// must be (a helper used only by) a literal passed to a store-if-absent primitive
@@ -364,8 +373,8 @@ func c01NewMeta(c *core.Ctx, r *core.Report) {
 				}
 				return false
 			}, 2)
-			r.Check(okLit, "C01.R9", cons, c.Pos(ci.Pos()), "a definition is built only inside the store-if-absent callback of the definition registry (one definition per name)")
+			r.Check(okLit, rule, cons, c.Pos(ci.Pos()), "a definition is built only inside the store-if-absent callback of the definition registry (one definition per name)")
 		}
 	}
-	r.Floor("C01.R9", "NewMeta call sites", n, 2)
+	r.Floor(rule, "NewMeta call sites", n, 2)
 }
